@@ -537,8 +537,9 @@ def work(cases):
         keys.append((fam, info.get("g0"), case.get("border", "none"), case["q"], case.get("order", "")))
         kinds = sorted({i["mechanism"] + ":" + i.get("class", i.get("attr", "")) for i, _ in res})
         part.outcome("held" if not res else "|".join(kinds))
+        label = case.get("fixture") or f"{case['kind']} S={case.get('S', 0):07b} border={case.get('border', 'none')}"
         for ident, detail in res:
-            part.fail(ident, detail, case)
+            part.fail(ident, f"[{label}] {detail}", case)
         if fam in ("subset", "fixture"):
             part.sample({"case": {k: v for k, v in case.items() if k != "vals"}, "outcome": kinds or "held"})
     d = part.dump()
@@ -550,10 +551,18 @@ def main():
     args = parse_args()
     if args.replay:
         def rp(case, payload):
+            from mc.evidence import ident_matches, load_known
+
             res = eval_case(case)
             want = payload.get("ident")
-            hit = [d for i, d in res if i == want] or [d for _, d in res]
-            return bool(res), f"case {json.dumps(case)}: " + ("; ".join(hit[:3]) or "geometry and labels unchanged over all cycles")
+            known = load_known(PID)
+            hit = [d for i, d in res if i == want]
+            other = [d for i, d in res if i != want and not any(ident_matches(k["match"], i) for k in known)]
+            n_known = len(res) - len(hit) - len([i for i, _ in res if i != want and not any(ident_matches(k["match"], i) for k in known)])
+            text = f"case {json.dumps(case)}: " + ("; ".join((hit + other)[:3]) or "geometry and labels unchanged over all cycles")
+            if n_known:
+                text += f" [{n_known} further difference(s) match a known finding]"
+            return bool(hit or other), text
         return run_replay(args, rp)
     run = Run(PID, "exploration", args)
     Scratch.dir()
